@@ -25,6 +25,7 @@ sys.path.insert(0, HERE)
 import extract  # noqa: E402
 import kani_run  # noqa: E402
 import frame  # noqa: E402
+import frame2  # noqa: E402,F401  (registers F-thunk, F-tracelen)
 import replay as replay_mod  # noqa: E402
 
 REPO = os.environ.get("VERIF_REPO", "/repo")
